@@ -389,8 +389,13 @@ fn check_case(s: &str, w: &What, k4b: bool) -> Result<(), String> {
                     return Err("marker line is not below the numbered line".into());
                 }
                 let mw = width(&m.marker);
-                if m.col != start_col || m.col + mw != end_hi {
-                    return Err(format!("marker covers cells {}..{}, span occupies {}..{}", m.col, m.col + mw, start_col, end_hi));
+                // cells of the span: from the width of the text before it, as wide as the span's
+                // own text (display width is not additive over every character sequence -
+                // variation selectors, joiners -, so the right edge is not taken from the prefix)
+                let span_w = width(&pictures(&s[a..b]));
+                let _ = end_hi;
+                if m.col != start_col || mw != span_w {
+                    return Err(format!("marker covers cells {}..{}, span occupies {}..{}", m.col, m.col + mw, start_col, start_col + span_w));
                 }
             } else {
                 if parsed.marks.len() != 2 {
@@ -406,7 +411,12 @@ fn check_case(s: &str, w: &What, k4b: bool) -> Result<(), String> {
                 // a zero-width last character (combining mark, format character) has no cell of
                 // its own: the marker may then sit on the cell before it, where it is rendered
                 let zero_width_last = end_lo == end_hi;
-                let ok = (end_lo <= bot.col && bot.col < end_hi.max(end_lo + 1)) || (zero_width_last && bot.col + 1 == end_lo);
+                // where display width is not additive around the last character, its cells are not
+                // well defined: only the neighbourhood is required
+                let (la, _) = lines[ll - 1];
+                let last_char = &s[last_char_start..b];
+                let additive = width(&pictures(&s[la..last_char_start])) + width(&pictures(last_char)) == width(&pictures(&s[la..b]));
+                let ok = (end_lo <= bot.col && bot.col < end_hi.max(end_lo + 1)) || (zero_width_last && bot.col + 1 == end_lo) || (!additive && bot.col + 2 >= end_lo && bot.col <= end_hi + 1);
                 if !ok {
                     return Err(format!("end marker at cell {}, last character occupies {}..{}", bot.col, end_lo, end_hi));
                 }
